@@ -12,6 +12,9 @@ Op language (one op per line):
 * `entry <id> <res> <val>… @key=val…` ⇒ `pass | block hot | block flow`
 * `exit <id>`
 * `args <id>` ⇒ the live entry's `Input.Args` (`none` if the entry is not live)
+* `pentry <id> <res> <val>… @key=val…` — the same `api.Entry` call made by another goroutine, which is parked at the
+  yield point `chain.between-check-and-stat` (rule-check slots done, statistic slots not yet run)
+* `resume <id>` ⇒ lets that goroutine finish: `pass | block hot | block flow` (`none`: no such parked entry)
 
 Modes: `model` — the code-shaped model `Sentinel.HotConc` (LRU cells, first-touch, re-extraction at exit);
 `oracle` — judges the implementation's own trace against the property: the ledger `live_k(v)` is
@@ -86,10 +89,17 @@ def stepModel (s : St) (ts : List String) (_ : String) : St × Option String :=
   | ["flowblock", res] => (step s (.flowBlock res), none)
   | "entry" :: id :: res :: rest => match parseEntryArgs? rest with
     | some (as, ats) =>
-      if s.live.any (fun e => e.id == id) then (s, some "bad-op") else
+      if s.used id then (s, some "bad-op") else
       let r := entry s id res as ats
       (r.1, some (showRes r.2))
     | none => (s, some "bad-op")
+  | "pentry" :: id :: res :: rest => match parseEntryArgs? rest with
+    | some (as, ats) =>
+      if s.used id then (s, some "bad-op") else (check s id res as ats, none)
+    | none => (s, some "bad-op")
+  | ["resume", id] =>
+    let r := commit s id
+    (r.1, some (match r.2 with | some v => showRes v | none => "none"))
   | ["exit", id] => (exit s id, none)
   | ["args", id] => match s.live.find? (fun e => e.id == id) with
     | some e => (s, some (showList (e.args.map showVal)))
@@ -109,9 +119,24 @@ structure OLive where
   args : List Val
   atts : List (String × Val)
 
+/-- an entry parked between its check and its statistic slots, as the oracle tracks it -/
+structure OPend where
+  id : String
+  res : String
+  args : List Val
+  atts : List (String × Val)
+  fbAtCheck : Bool        -- blocked by the flow rule
+  noClaim : Bool          -- resource was stale at check time
+  overAtCheck : Bool
+  claimBlock : Bool       -- the property's verdict on the ledger at check time
+  ftAll : Bool            -- … and every violated rule saw the value for the first time (known first-touch region)
+  seenBlock : Bool        -- the property's verdict was "block" at some state since the check
+  raced : Bool            -- another admission on the resource completed since the check
+
 structure OSt where
   rules : List ORule := []
   live : List OLive := []
+  pend : List OPend := []
   fb : List String := []
   over : List String := []      -- resources one of whose rules has seen more distinct values than its capacity
   stale : List String := []     -- resources that had live entries when the rules were (re)loaded: no claim
@@ -119,7 +144,14 @@ structure OSt where
 
 /-- the ledger: live entries on the rule's resource whose selected value is `v` -/
 def liveCount (s : OSt) (r : Rule) (v : Val) : Nat :=
-  (s.live.filter fun e => e.res == r.res && extract r e.args e.atts == v).length
+  (s.live.filter fun e => r.sel e.res e.args e.atts == v).length
+
+/-- the property's verdict on the present ledger: some concurrency rule of the resource selects a value whose
+    in-flight count is not below its threshold -/
+def viols (s : OSt) (res : String) (as : List Val) (ats : List (String × Val)) : Bool :=
+  s.rules.any fun o =>
+    let v := o.rule.sel res as ats
+    v != Val.nil && !decide ((liveCount s o.rule v : Int) < o.rule.thrOf v)
 
 /-- walks the concurrency rules of `res` in order.  Returns (claimed verdict is "block", every violated rule is a
     first touch, rules updated with the values the code consults, resource overflowed) -/
@@ -127,8 +159,7 @@ def judgeRules (s : OSt) (res : String) (as : List Val) (ats : List (String × V
     List ORule → Bool → Bool × Bool × List ORule × Bool
   | [], _ => (false, true, [], false)
   | o :: os, stopped =>
-    let applies := o.rule.res == res && o.rule.conc
-    let v := if applies then extract o.rule as ats else Val.nil
+    let v := o.rule.sel res as ats
     if v = Val.nil then
       let r := judgeRules s res as ats os stopped
       (r.1, r.2.1, o :: r.2.2.1, r.2.2.2)
@@ -141,37 +172,86 @@ def judgeRules (s : OSt) (res : String) (as : List Val) (ats : List (String × V
       let r := judgeRules s res as ats os (stopped || (viol && !fresh))
       (viol || r.1, (!viol || fresh) && r.2.1, o' :: r.2.2.1, overflow || r.2.2.2)
 
+/-- after the ledger changed: refresh what the parked entries have seen -/
+def refreshPend (s : OSt) (committedOn : Option String) : OSt :=
+  { s with pend := s.pend.map fun p =>
+      { p with seenBlock := p.seenBlock || viols s p.res p.args p.atts,
+               raced := p.raced || committedOn == some p.res } }
+
+def addLive (s : OSt) (id res : String) (as : List Val) (ats : List (String × Val)) : OSt :=
+  refreshPend { s with live := { id := id, res := res, args := as, atts := ats } :: s.live } (some res)
+
+/-- the part of a check shared by `entry` and `pentry`: verdict claimed by the property, regions, rule bookkeeping -/
+def checkPhase (s : OSt) (res : String) (as : List Val) (ats : List (String × Val)) : OSt × Bool × Bool × Bool :=
+  let j := judgeRules s res as ats s.rules false
+  let wasOver := s.over.contains res
+  let s1 : OSt := { s with rules := if wasOver then s.rules else j.2.2.1,
+                           over := if j.2.2.2 && !wasOver then res :: s.over else s.over }
+  (s1, j.1, j.2.1, wasOver)
+
 def stepOracle (s : OSt) (ts : List String) (line : String) : OSt × Option String :=
   let res? := resPart line
+  let used (id : String) : Bool := s.live.any (fun e => e.id == id) || s.pend.any (fun p => p.id == id)
   match ts with
   | "load" :: rs => match parseRules? rs with
     | some rules =>
       ({ s with rules := (rules.filter Rule.valid).map fun r => { rule := r },
-                over := [], stale := (s.live.map (·.res)).eraseDups }, none)
+                over := [], stale := (s.live.map (·.res) ++ s.pend.map (·.res)).eraseDups }, none)
     | none => (s, some "bad-op")
   | ["flowblock", res] => ({ s with fb := res :: s.fb }, none)
   | "entry" :: id :: res :: rest => match parseEntryArgs? rest, res? with
     | some (as, ats), some got =>
-      if s.live.any (fun e => e.id == id) then (s, some "bad-op") else
-      let addLive (s : OSt) : OSt :=
-        if got == "pass" then { s with live := { id := id, res := res, args := as, atts := ats } :: s.live } else s
+      if used id then (s, some "bad-op") else
+      let fin (s : OSt) : OSt := if got == "pass" then addLive s id res as ats else s
       if s.fb.contains res then
-        (addLive s, some (if got == "block flow" then "ok" else "bad expected block flow"))
+        (fin s, some (if got == "block flow" then "ok" else "bad expected block flow"))
       else
-        let j := judgeRules s res as ats s.rules false
-        let claim := if j.1 then "block hot" else "pass"
-        let wasOver := s.over.contains res
-        let s1 : OSt := { s with rules := if wasOver then s.rules else j.2.2.1,
-                                 over := if j.2.2.2 && !wasOver then res :: s.over else s.over }
-        let s2 := addLive s1
+        let (s1, claimBlock, ftAll, wasOver) := checkPhase s res as ats
+        let claim := if claimBlock then "block hot" else "pass"
+        let s2 := fin s1
         if got != "pass" && got != "block hot" then (s2, some ("bad unexpected result, claimed " ++ claim))
         else if s.stale.contains res then (s2, some "?")
         else if got == claim then (s2, some "ok")
         else if wasOver then (s2, some "known:cell-evicted")
-        else if got == "pass" && j.2.1 then (s2, some "known:first-touch-unchecked")
+        else if got == "pass" && ftAll then (s2, some "known:first-touch-unchecked")
         else (s2, some ("bad claimed " ++ claim))
     | _, _ => (s, some "bad-op")
-  | ["exit", id] => ({ s with live := s.live.filter fun e => !(e.id == id) }, none)
+  | "pentry" :: id :: res :: rest => match parseEntryArgs? rest with
+    | some (as, ats) =>
+      if used id then (s, some "bad-op") else
+      let p0 : OPend := { id := id, res := res, args := as, atts := ats, fbAtCheck := false,
+                          noClaim := s.stale.contains res, overAtCheck := false, claimBlock := false, ftAll := true,
+                          seenBlock := false, raced := false }
+      if s.fb.contains res then ({ s with pend := { p0 with fbAtCheck := true } :: s.pend }, none)
+      else
+        let (s1, claimBlock, ftAll, wasOver) := checkPhase s res as ats
+        ({ s1 with pend := { p0 with overAtCheck := wasOver, claimBlock := claimBlock, ftAll := ftAll,
+                                     seenBlock := claimBlock } :: s1.pend }, none)
+    | none => (s, some "bad-op")
+  | ["resume", id] => match res? with
+    | none => (s, some "bad-op")
+    | some got => match s.pend.find? (fun p => p.id == id) with
+      | none => (s, some (if got == "none" then "ok" else "bad expected none"))
+      | some p =>
+        let s0 : OSt := { s with pend := s.pend.filter fun q => !(q.id == id) }
+        let violNow := viols s0 p.res p.args p.atts
+        let over := p.overAtCheck || s0.over.contains p.res
+        let s1 := if got == "pass" then addLive s0 p.id p.res p.args p.atts else s0
+        if p.fbAtCheck then (s1, some (if got == "block flow" then "ok" else "bad expected block flow"))
+        else if got != "pass" && got != "block hot" then (s1, some "bad unexpected result")
+        else if p.noClaim || s0.stale.contains p.res then (s1, some "?")
+        else if got == "pass" then
+          if !violNow then (s1, some "ok")
+          else if over then (s1, some "known:cell-evicted")
+          else if p.claimBlock && p.ftAll then (s1, some "known:first-touch-unchecked")
+          else if p.raced && !p.claimBlock then (s1, some "known:check-then-act-overshoot")
+          else (s1, some "bad claimed block hot")
+        else
+          if p.seenBlock then (s1, some "ok")
+          else if over then (s1, some "known:cell-evicted")
+          else (s1, some "bad claimed pass")
+  | ["exit", id] =>
+    (refreshPend { s with live := s.live.filter fun e => !(e.id == id) } none, none)
   | ["args", id] => match res? with
     | some got =>
       let want := match s.live.find? (fun e => e.id == id) with
